@@ -32,7 +32,7 @@ class FakeOS:
     def open(self, path, flags):
         w = self.w
         w.open_calls.append((round(w.loop.time(), 6), path))
-        if not w.device_present:
+        if not w.device_present or (getattr(w, "use_glob", False) and path != w.node()):
             raise FileNotFoundError(path)
         w.fd = (w.fd or FD0 - 1) + 1
         w.lost = False
@@ -57,6 +57,21 @@ class FakeOS:
 
     def close(self, fd):
         self.w.closed.append(fd)
+
+
+class FakeGlob:
+    """glob module seen by the driver: the gateway's device node, when present, under its CURRENT name."""
+
+    def __init__(self, world):
+        self.w = world
+
+    def glob(self, pattern):
+        import fnmatch
+        w = self.w
+        w.glob_calls.append((round(w.loop.time(), 6), pattern))
+        if w.device_present and fnmatch.fnmatch(w.node(), pattern):
+            return [w.node()]
+        return []
 
 
 class FixedRandom:
@@ -187,9 +202,15 @@ class HidWorld(World):
         self.H = H
         H.os = FakeOS(self)
         H.random = FixedRandom(self.start_seq)
+        self.glob_calls = []
+        self.enumerations = 0
+        H.glob = FakeGlob(self)
         cls = H.tridonic if self.driver_kind == "tridonic" else H.hasseb
         self.gateway = (TridonicGW if self.driver_kind == "tridonic" else HassebGW)(self, self.bus)
-        self.driver = cls("/dev/dali/fake", reconnect_interval=1, reconnect_limit=self.reconnect_limit)
+        if getattr(self, "use_glob", False):
+            self.driver = cls("/dev/dali/hidraw*", glob=True, reconnect_interval=1, reconnect_limit=self.reconnect_limit)
+        else:
+            self.driver = cls("/dev/dali/fake", reconnect_interval=1, reconnect_limit=self.reconnect_limit)
         self.driver.exceptions_on_send = self.exceptions_on_send
         self.driver.connection_status_callback.register(
             lambda drv, status: self.status_log.append((round(self.loop.time(), 6), status)))
@@ -253,6 +274,11 @@ class HidWorld(World):
 
     def _return(self):
         self.device_present = True
+        self.return_times = getattr(self, "return_times", []) + [round(self.loop.time(), 6)]
+        self.enumerations += 1          # a USB device that comes back is enumerated again - under the next free node name
+
+    def node(self):
+        return f"/dev/dali/hidraw{3 + getattr(self, 'enumerations', 0)}" if getattr(self, "use_glob", False) else "/dev/dali/fake"
 
     def finish(self):
         d = self.driver
